@@ -99,6 +99,9 @@ func H(ctx erpc.CallCtx, arg *[]byte) ([]byte, *erpc.Status) {
 	return []byte("R:" + tok), nil
 }
 
+// HP is a push handler (earlier one-way traffic).
+func HP(ctx erpc.PushCtx, arg *[]byte) *erpc.Status { return nil }
+
 type scenario struct {
 	Proto   string `json:"proto"`
 	K       int    `json:"calls_to_closing_side"`
@@ -108,6 +111,7 @@ type scenario struct {
 	Class   string `json:"class"`
 	Sess    int    `json:"sessions"`
 	DelayPM int    `json:"gate_delay_permille"`
+	PrePush int    `json:"pushes_sent_by_closing_side_before"` // earlier one-way traffic of the closing side on the same sessions
 }
 
 type viol struct{ sym, what string }
@@ -129,6 +133,8 @@ func runScenario(id string, sc scenario, r *core.Rand) {
 	py := erpc.NewPeer(erpc.PeerConfig{})
 	route := px.RouteCallFunc(H)
 	py.RouteCallFunc(H)
+	proute := px.RoutePushFunc(HP)
+	py.RoutePushFunc(HP)
 	type link struct {
 		*bed.Link
 		xw, yw *tapLog
@@ -162,6 +168,18 @@ func runScenario(id string, sc scenario, r *core.Rand) {
 			}
 		}
 		return false
+	}
+	// the closing side (and its peer) have pushed before on these sessions; everything has settled before the calls start
+	if sc.PrePush > 0 {
+		for _, l := range links {
+			for i := 0; i < sc.PrePush; i++ {
+				l.B.Push(proute, []byte("pre"), erpc.WithBodyCodec(codec.ID_PLAIN))
+				if i%2 == 0 {
+					l.A.Push(proute, []byte("pre"), erpc.WithBodyCodec(codec.ID_PLAIN))
+				}
+			}
+		}
+		settle()
 	}
 	total := (sc.K + sc.K2) * sc.Sess
 	var trap *gates.Trap
@@ -375,7 +393,7 @@ func runScenario(id string, sc scenario, r *core.Rand) {
 	core.Add("calls_genuine_reply", int64(nOK))
 	py.Close()
 	px.Close()
-	sig := fmt.Sprintf("%s/%s/%s/k%d+%d/s%d/d%d", sc.Proto, sc.Point, sc.Closer, sc.K, sc.K2, sc.Sess, sc.DelayPM)
+	sig := fmt.Sprintf("%s/%s/%s/k%d+%d/s%d/d%d/pp%d", sc.Proto, sc.Point, sc.Closer, sc.K, sc.K2, sc.Sess, sc.DelayPM, sc.PrePush)
 	if len(vs) == 0 {
 		nontrivial := nEntered > 0 || sc.K2 > 0
 		if nontrivial {
@@ -451,7 +469,7 @@ func main() {
 					if cl == "peer" {
 						sess = 3
 					}
-					scs = append(scs, scenario{Proto: pn, K: k[0], K2: k[1], Point: pt, Closer: cl, Class: "placed", Sess: sess})
+					scs = append(scs, scenario{Proto: pn, K: k[0], K2: k[1], Point: pt, Closer: cl, Class: "placed", Sess: sess, PrePush: []int{0, 0, 40}[len(scs)%3]})
 					if *tier == "thorough" {
 						scs = append(scs, scenario{Proto: pn, K: k[0], K2: k[1], Point: pt, Closer: cl, Class: "placed", Sess: sess, DelayPM: 200})
 					}
